@@ -53,7 +53,7 @@ func Generate(r *rand.Rand, profile string) *Scenario {
 	if profile == "hetero" {
 		return generateHetero(r)
 	}
-	if profile == "bindfail" || profile == "overhead" || profile == "nested" || profile == "sharers" {
+	if profile == "bindfail" || profile == "overhead" || profile == "nested" || profile == "sharers" || profile == "elasticnom" {
 		return generateTight(r, profile)
 	}
 	pick := func(vs ...int) int { return vs[r.Intn(len(vs))] }
@@ -379,10 +379,16 @@ func Generate(r *rand.Rand, profile string) *Scenario {
 		var podIdx []int
 		// optional sub-groups: two flat pod sets splitting the job's pods
 		sizeA := 0
+		minA, minB := 0, 0
+		atMin := false // every pod set runs exactly its minimum, the surplus pods are pending (e.g. a scale-up that found no room)
 		if t.size >= 2 && shape == 0 && (profile == "mixed" || profile == "full" || profile == "closed") && chance(0.3) {
+			if chance(0.5) {
+				t.size = pick(3, 3, 4) // room for pod sets with surplus pods
+			}
 			sizeA = (t.size + 1) / 2
-			minA := 1 + r.Intn(sizeA)
-			minB := 1 + r.Intn(t.size-sizeA)
+			minA = 1 + r.Intn(sizeA)
+			minB = 1 + r.Intn(t.size-sizeA)
+			atMin = minA+minB < t.size && chance(0.5)
 			sc.Jobs[j].Subs = []Sub{{Name: "sa", Min: minA}, {Name: "sb", Min: minB}}
 			if chance(0.5) {
 				// hierarchical: sb nested under an intermediate sub-group set (index 3, holds no pods)
@@ -417,9 +423,19 @@ func Generate(r *rand.Rand, profile string) *Scenario {
 				wantRun = t.size
 			}
 		}
-		for _, pi := range podIdx {
+		needRun := t.size
+		if atMin {
+			needRun = minA + minB
+			if wantRun > 0 {
+				wantRun = needRun
+			}
+		}
+		for x, pi := range podIdx {
 			if running >= wantRun {
 				break
+			}
+			if atMin && !((x < sizeA && x < minA) || (x >= sizeA && x-sizeA < minB)) {
+				continue
 			}
 			p := &sc.Pods[pi]
 			if len(p.Sel) > 0 || len(p.AffIn) > 0 || len(p.AffNot) > 0 || len(p.PodAff) > 0 || len(p.PodAnt) > 0 {
@@ -434,7 +450,7 @@ func Generate(r *rand.Rand, profile string) *Scenario {
 				}
 			}
 		}
-		if running > 0 && (running < t.min || (sizeA > 0 && running < t.size)) {
+		if running > 0 && (running < t.min || (sizeA > 0 && running < needRun)) {
 			// cannot leave a gang partially running in the initial state: roll the job back to pending
 			// (capacity bookkeeping stays conservative)
 			for _, pi := range podIdx {
@@ -818,17 +834,36 @@ func generateVictims(r *rand.Rand, profile string) *Scenario {
 		k++
 		job := Job{Name: fmt.Sprintf("j%d", k), Queue: 2, Prio: pick(50, 50, 60), Preempt: 1, Min: min, Age: 7200 + 60*k,
 			LastStart: pick(60, 1800, 18000, 180000)}
+		// a victim made of two pod sets that each run exactly their minimum, with a surplus pod still pending in
+		// one of them (a scale-up that found no room): evicting must take the whole workload or nothing
+		podSets := size >= 2 && chance(0.35)
+		if podSets {
+			a := 1 + r.Intn(size-1)
+			job.Subs = []Sub{{Name: "sa", Min: a}, {Name: "sb", Min: size - a}}
+			job.Min, min = size, size
+		}
 		sc.Jobs = append(sc.Jobs, job)
 		for i := 0; i < size; i++ {
 			p := Pod{Name: fmt.Sprintf("j%d-p%d", k, i+1), Job: k, Cpu: 500, Mem: 500, Gpu: 1, Phase: "R", Node: place()}
 			if profile == "elastic" && i >= min && chance(0.5) {
 				p.Term = 1
 			}
+			if podSets {
+				p.Sub = 2
+				if i < job.Subs[0].Min {
+					p.Sub = 1
+				}
+			}
 			sc.Pods = append(sc.Pods, p)
+		}
+		if podSets {
+			for i := 0; i < pick(1, 1, 2); i++ {
+				sc.Pods = append(sc.Pods, Pod{Name: fmt.Sprintf("j%d-p%d", k, size+i+1), Job: k, Cpu: 500, Mem: 500, Gpu: 1, Phase: "P", Sub: pick(1, 2)})
+			}
 		}
 		// an elastic job that is at the same time a victim candidate (running pods above its minimum) and a
 		// claimant (pods still pending): later actions of the cycle see it in both roles
-		if profile == "elastic" && chance(0.5) {
+		if profile == "elastic" && !podSets && chance(0.5) {
 			for i := 0; i < pick(1, 1, 2); i++ {
 				sc.Pods = append(sc.Pods, Pod{Name: fmt.Sprintf("j%d-p%d", k, size+i+1), Job: k, Cpu: 500, Mem: 500, Gpu: 1, Phase: "P"})
 			}
@@ -948,6 +983,46 @@ func generateTight(r *rand.Rand, profile string) *Scenario {
 			devs := pick(1, 2, 2)
 			sc.Jobs = append(sc.Jobs, Job{Name: fmt.Sprintf("j%d", k), Queue: 2 + r.Intn(2), Prio: 50, Preempt: 1, Min: 1, Age: 600 + i, LastStart: -1})
 			sc.Pods = append(sc.Pods, Pod{Name: fmt.Sprintf("j%d-p1", k), Job: k, Cpu: 500, Mem: 500, Frac: pick(50, 50, 30), Devs: devs, Phase: "P"})
+		}
+	case "elasticnom":
+		// an elastic job (more pending pods than its minimum) whose minimum does not fit the idle GPUs: part of it
+		// has to wait for a terminating pod, so the whole minimum is nominated and nothing is bound - while there is
+		// still idle room for one more pod when the job comes back for its surplus pods in the same cycle
+		g := pick(2, 3, 4)
+		sc.Nodes = []Node{{Name: "n1", Cpu: 16000, Mem: 64000, Pods: 110, Gpus: g, GpuMem: 40000, Ready: 1}}
+		sc.Cfg.Env = []string{"stall", "stall", "closed"}[r.Intn(3)]
+		idle := pick(1, 1, 2)
+		if idle >= g {
+			idle = g - 1
+		}
+		k := 0
+		for i := 0; i < g-idle; i++ {
+			k++
+			sc.Jobs = append(sc.Jobs, Job{Name: fmt.Sprintf("j%d", k), Queue: 3, Prio: 50, Preempt: 1, Min: 1, Age: 7200 + k, LastStart: 36000})
+			sc.Pods = append(sc.Pods, Pod{Name: fmt.Sprintf("j%d-p1", k), Job: k, Cpu: 500, Mem: 500, Gpu: 1, Phase: "R", Node: 1, Term: pick(1, 1, 0)})
+		}
+		k++
+		min := idle + 1
+		size := min + pick(1, 1, 2)
+		job := Job{Name: fmt.Sprintf("j%d", k), Queue: 2, Prio: 50, Preempt: 1, Min: min, Age: 600, LastStart: -1}
+		if pick(0, 1, 1) == 0 && min >= 2 {
+			job.Subs = []Sub{{Name: "sa", Min: 1}, {Name: "sb", Min: min - 1}}
+		}
+		sc.Jobs = append(sc.Jobs, job)
+		for i := 0; i < size; i++ {
+			p := Pod{Name: fmt.Sprintf("j%d-p%d", k, i+1), Job: k, Cpu: 500, Mem: 500, Gpu: 1, Phase: "P"}
+			if len(job.Subs) > 0 {
+				p.Sub = 2
+				if i == 0 {
+					p.Sub = 1
+				}
+			}
+			sc.Pods = append(sc.Pods, p)
+		}
+		if pick(0, 1) == 1 {
+			k++
+			sc.Jobs = append(sc.Jobs, Job{Name: fmt.Sprintf("j%d", k), Queue: 3, Prio: 50, Preempt: 1, Min: 1, Age: 300, LastStart: -1})
+			sc.Pods = append(sc.Pods, Pod{Name: fmt.Sprintf("j%d-p1", k), Job: k, Cpu: 500, Mem: 500, Gpu: 1, Phase: "P"})
 		}
 	case "nested":
 		sc.Nodes = []Node{{Name: "n1", Cpu: 16000, Mem: 64000, Pods: 110, Gpus: 2, GpuMem: 40000, Ready: 1}}
